@@ -23,7 +23,7 @@ PROPS["C13"] = {
                    "loop contracts with variants on its three loops, no unwinding anywhere; string CONTENT abstracted so that one run covers every document, file system and include graph): "
                    "(G) a file is opened / expanded only after its path was compared with EVERY path on the stack of files being expanded and found different (ghost index; also the precondition of every nested call), "
                    "(S) the stack is restored on return, (T) the marker loop has a variant: the bytes after the search position strictly decrease, (R) the search resumes exactly after the inserted text / the opening braces of a marker left in place "
-                   "(nothing skipped, nothing rescanned), (P) the search position stays inside the string, (M) a path enters the manifest only after it differed from EVERY manifest entry and existing entries are never changed, "
+                   "(nothing skipped, nothing rescanned), (P) the search position stays inside the string, (M) a path enters the manifest only after it differed from EVERY manifest entry and existing entries are never changed, (X) the metadata extent the engine reports for an included file is erased in full before the file is inserted, "
                    "every object created is released.  Four configurations (parsed NULL / non-NULL x manifest NULL / non-NULL), each in a quick variant (string lengths < 4096: labelled bounded) and a thorough variant (lengths < 2^32: proof). "
                    "Two bounded units on the real function with real path helpers complete it: c13_marker_buffer (text[1100] accesses for every marker position and length, >= 1000-byte marker skipped) and "
                    "c13_wildcard (for every output format {{a.*}} requests /a.html | /a.tex | /a.fodt | /a.* | /a.txt, a missing file leaves its marker).",
